@@ -26,6 +26,9 @@ func NewLoader(fs fs.FS) *Loader {
 
 // Stat checks that filename exists in the loader filesystem.
 func (l *Loader) Stat(filename string) error {
+	if l.FS == nil {
+		return fmt.Errorf("error reading %s: no filesystem configured", filename)
+	}
 	_, err := fs.Stat(l.FS, filename)
 	return err
 }
